@@ -214,6 +214,9 @@ def sh(cmd, cwd=None, timeout=3600):
 
 
 def regen_coqproject():
+    for d in (os.path.join(OCAML, 'gen'), os.path.join(OCAML, 'build'), os.path.join(COQ, 'theories', 'Gen'),
+              os.path.join(VERIF, 'evidence'), os.path.join(VERIF, 'replays')):
+        os.makedirs(d, exist_ok=True)
     files = []
     for root, _, fs in os.walk(os.path.join(COQ, 'theories')):
         for f in fs:
